@@ -8,6 +8,9 @@ for m in $IDS; do
   p=$d/patch.diff
   for alt in $d/patch_rebased*.diff; do [ -f "$alt" ] && p=$alt; done
   prop=${m%-*}
+  # a change may be caught by a neighbouring property's check: meta.json names it
+  alt=$(python3 -c "import json;print(json.load(open('$d/meta.json')).get('check_with',''))" 2>/dev/null)
+  [ -n "$alt" ] && prop=$alt
   out=$(tools/try_mutant.sh "/verif/$p" "$prop" 2>&1)
   if echo "$out" | grep -q "patch does not apply"; then echo "$m NOAPPLY ($p)"; continue; fi
   if echo "$out" | grep -q "check exit=1" && echo "$out" | grep -q "^VIOLATION property=$prop"; then
